@@ -241,7 +241,12 @@ func genInput(t *sim.Tape, allowed []Surface, st *sim.Stats) *Input {
 		d := append([]byte{}, in.Data...)
 		switch t.Choose(3) {
 		case 0:
-			d = d[:t.Choose(len(d))]
+			cut := t.Choose(len(d))
+			if len(in.Marks) > 0 && t.Bool(1, 2) {
+				// just behind a structural boundary (eexec, a header, RD ...)
+				cut = max(0, min(len(d), sim.Pick(t, in.Marks)+t.Range(-1, 4)))
+			}
+			d = d[:cut]
 			in.Desc += ", truncated"
 		case 1:
 			d[t.Choose(len(d))] ^= byte(1 + t.Choose(255))
